@@ -61,6 +61,24 @@ def coq_forest(root, U) -> str:
     return H.coq_list(coq_rt(c, U) for c in (root._children or []))
 
 
+def sibling_groups(shape, all_groups=False):
+    """pre-order indices of the members of every sibling list (top level included) with >= 2 members (or all lists)."""
+    out = []
+    counter = [0]
+
+    def go(f):
+        mine = []
+        for t in f:
+            mine.append(counter[0])
+            counter[0] += 1
+            go(t)
+        if all_groups or len(mine) >= 2:
+            out.append(mine)
+
+    go(shape)
+    return out
+
+
 def univ_for(n):
     out = []
     for i in range(n):
@@ -83,21 +101,25 @@ class Prop:
     case_vo = "theories/Cases/CaseC08.vo"
     run_fn = "run08"
     shard = 250
-    rule = ("plain trees with default data_ids and pairwise different data among siblings (small scopes: all data different; random: clones "
-            "anywhere else, sometimes directly below their original = the region where D24 makes the copying form raise); one case = tree x "
-            "verdict per node from {True, False/None, SkipBranch()/SkipBranch(and_self=True), SkipBranch(and_self=False), SelectBranch, "
-            "StopTraversal/StopIteration} x per-node flavour (returned or raised, class or instance) x start (whole tree or one node); "
-            "every case runs Tree.filtered, Tree.copy(predicate=), Tree.filter or Node.filtered, Node.copy(predicate=), "
-            "Node.copy(add_self=False, predicate=), Node.filter, logs every predicate call, and runs the same entry points without a predicate "
-            "(plain copies, ValueError).  quick: every ordered forest <= 3 nodes x all "
-            "6^n verdict assignments x all starts, 4-5 nodes sampled per (shape, start), 300 random trees of 6-14 nodes; thorough: <= 4 "
-            "nodes exhaustive, 5 sampled (100 per shape and start), 2000 random.  distinct = distinct (shape, labels, verdicts, start); non-trivial = a non-empty "
-            "proper subset of the scanned nodes is kept")
-    exhaustive_note = "all forest shapes <= N nodes x all 6^n verdict assignments x all starts (N=3 quick, 4 thorough)"
+    rule = ("plain trees; one case = tree x verdict per node from {True, False/None, SkipBranch()/SkipBranch(and_self=True), "
+            "SkipBranch(and_self=False), SelectBranch, StopTraversal/StopIteration} x per-node flavour (returned or raised, class or instance) "
+            "x start (whole tree or one node); every case runs Tree.filtered, Tree.copy(predicate=), Tree.filter or Node.filtered, "
+            "Node.copy(predicate=), Node.copy(add_self=False, predicate=), Node.filter, logs every predicate call, and runs the same entry "
+            "points without a predicate (plain copies, ValueError).  Data: (a) all data different, default data_ids; (b) TWINS: every pair "
+            "of siblings carrying the same data object, or two distinct equal-comparing objects, under distinct explicit data_ids (int / "
+            "str), so that node identity, data identity and data equality come apart and the twins get every pair of different answers; "
+            "(c) CLONES: every pair of non-sibling nodes carrying one data object (parent/child included = the region where D24 makes the "
+            "copying form raise).  quick: (a) every ordered forest <= 3 nodes x all 6^n verdict assignments x all starts, 4-5 nodes "
+            "sampled per (shape, start); (b) 2 nodes exhaustive, 3-4 nodes sampled; (c) 2 nodes exhaustive, 3 sampled; 300 random trees "
+            "of 6-14 nodes with clones.  thorough: (a) <= 4 nodes exhaustive, 5 sampled; (b) <= 3 exhaustive, 4 sampled; (c) <= 3 "
+            "exhaustive, 4 sampled; 2000 random.  distinct = distinct (shape, labels, data_ids, verdicts, start); non-trivial = a "
+            "non-empty proper subset of the scanned nodes is kept")
+    exhaustive_note = ("all forest shapes <= N nodes x all 6^n verdict assignments x all starts (N=3 quick, 4 thorough); with every sibling pair as "
+                       "twins and every non-sibling pair as clones: N=2 quick, 3 thorough")
     assumptions = [
         "identity of nodes is the allocation index recorded by a harness-side wrapper of Node.__init__",
-        "siblings never carry equal-comparing data (list.remove(self) is an equality search: D02, owned by C01/C04; the library refuses "
-        "such siblings for default data_ids anyway); default data_ids, plain Tree (D20-D22 are C07's)",
+        "plain Tree (typed copies: D21/D22 are C07's); siblings with equal-comparing data occur only under distinct explicit data_ids "
+        "(the library refuses them otherwise)",
         "a bare control class returned (not raised) by the predicate is outside the quantifier",
     ]
     manifest = dict(
@@ -127,28 +149,70 @@ class Prop:
     )
 
     # ----- generation
-    def _desc(self, shape_nodes, n, verdicts, start, rng):
+    def _desc(self, shape_nodes, n, verdicts, start, rng, univ=None):
         fl = [rng.randrange(len(FLAVOURS[c])) for c in verdicts]
-        return dict(univ=univ_for(n), nodes=shape_nodes, verdicts=list(verdicts), flavours=fl, start=start)
+        return dict(univ=univ or univ_for(n), nodes=shape_nodes, verdicts=list(verdicts), flavours=fl, start=start)
+
+    def _all_verdicts(self, nodes, n, rng, sample=None, univ=None):
+        """one labelled forest x every start x every verdict assignment on the scope (or a sample of them)."""
+        flat = flatten(nodes)
+        # scope of each start: the descendants of the start node (pre-order indices)
+        starts = [None] + [i for i in range(n) if flat[i][1]]
+        for st in starts:
+            scope = list(range(n)) if st is None else flat[st][1]
+            total = 6 ** len(scope)
+            if sample is not None and total > sample:
+                combos = (tuple(rng.randrange(6) for _ in scope) for _ in range(sample))
+            else:
+                combos = itertools.product(range(6), repeat=len(scope))
+            for combo in combos:
+                vs = [V_FALSE] * n
+                for k, c in zip(scope, combo):
+                    vs[k] = c
+                yield self._desc(nodes, n, vs, st, rng, univ)
 
     def _exhaustive(self, n, rng, sample=None):
         for shape in H.forests(n):
             nodes = B.shape_to_nodes(shape, lambda i, d, s: (i, None, None))
-            flat = flatten(nodes)
-            # scope of each start: the descendants of the start node (pre-order indices)
-            starts = [None] + [i for i in range(n) if flat[i][1]]
-            for st in starts:
-                scope = list(range(n)) if st is None else flat[st][1]
-                total = 6 ** len(scope)
-                if sample is not None and total > sample:
-                    combos = (tuple(rng.randrange(6) for _ in scope) for _ in range(sample))
-                else:
-                    combos = itertools.product(range(6), repeat=len(scope))
-                for combo in combos:
-                    vs = [V_FALSE] * n
-                    for k, c in zip(scope, combo):
-                        vs[k] = c
-                    yield self._desc(nodes, n, vs, st, rng)
+            yield from self._all_verdicts(nodes, n, rng, sample)
+
+    def _twins(self, n, rng, sample=None):
+        """Every forest shape x every pair of SIBLINGS made twins: the same data object, or two distinct objects that
+        compare equal (and hash equal), under distinct explicit data_ids -- node identity, data identity and data
+        equality come apart -- x every verdict assignment (the twins get every pair of different answers) x every start."""
+        for shape in H.forests(n):
+            for group in sibling_groups(shape):
+                for a, b in itertools.combinations(group, 2):
+                    for variant in ("same", "equal"):
+                        univ = univ_for(n)
+                        if variant == "same":
+                            lab_b, ids = a, (7001, 7002)
+                        else:
+                            univ[a] = "e:50"
+                            univ.append("e:50")
+                            lab_b, ids = n, ("tw1", "tw2")
+
+                        def labeler(i, d, s_, a=a, b=b, lab_b=lab_b, ids=ids):
+                            if i == a:
+                                return (a, None, ids[0])
+                            if i == b:
+                                return (lab_b, None, ids[1])
+                            return (i, None, None)
+
+                        nodes = B.shape_to_nodes(shape, labeler)
+                        yield from self._all_verdicts(nodes, n, rng, sample, univ)
+
+    def _clones(self, n, rng, sample=None):
+        """Every forest shape x every pair of nodes that are NOT siblings carrying one data object (clones with the default
+        data_id; parent/child pairs included = the region where the D24 leaf collides) x every verdict assignment x every start."""
+        for shape in H.forests(n):
+            groups = sibling_groups(shape, all_groups=True)
+            sib = {(x, y) for g in groups for x in g for y in g}
+            for a, b in itertools.combinations(range(n), 2):
+                if (a, b) in sib:
+                    continue
+                nodes = B.shape_to_nodes(shape, lambda i, d, s_, a=a, b=b: (a if i == b else i, None, None))
+                yield from self._all_verdicts(nodes, n, rng, sample)
 
     def descs(self, tier, rng):
         yield from CORPUS
@@ -160,6 +224,19 @@ class Prop:
             yield from self._exhaustive(5, rng, sample=6)
         else:
             yield from self._exhaustive(5, rng, sample=100)
+        # equal-comparing siblings under distinct data_ids, clones in different parents: twins answered differently
+        yield from self._twins(2, rng)
+        if tier == "quick":
+            yield from self._twins(3, rng, sample=30)
+            yield from self._twins(4, rng, sample=4)
+            yield from self._clones(2, rng)
+            yield from self._clones(3, rng, sample=20)
+        else:
+            yield from self._twins(3, rng)
+            yield from self._twins(4, rng, sample=30)
+            yield from self._clones(2, rng)
+            yield from self._clones(3, rng)
+            yield from self._clones(4, rng, sample=20)
         nrand = 300 if tier == "quick" else 2000
         weights = [3, 4, 1, 1, 1, 0.4]
         for _ in range(nrand):
@@ -472,7 +549,7 @@ def flatten_raw(nodes):
 
 
 def labels(nodes):
-    return [n[0] for n in flatten_raw(nodes)]
+    return [[n[0], n[2]] for n in flatten_raw(nodes)]
 
 
 def tag_nodes(nodes):
